@@ -351,8 +351,31 @@ class _Expr:
                 return [(st, V(Ty('bound'), (hits[0], recv)))]
         return [(st, self.read_field(st, recv.t, attr))]
 
+    def instdict(self, node):
+        """``obj.__dict__[<str constant>]``: (obj expression, attribute name) when the contract asks for instance
+        dictionaries to be modelled as attribute storage (locals {'$instdict': True}), else None"""
+        if not self.proc.locals.get('$instdict'):
+            return None
+        v = node.value if isinstance(node, ast.Subscript) else None
+        if isinstance(v, ast.Attribute) and v.attr == '__dict__' and isinstance(node.slice, ast.Constant) \
+                and isinstance(node.slice.value, str):
+            return v.value, node.slice.value
+        return None
+
     def ev_Subscript(self, node, st):
         out = []
+        idk = self.instdict(node)
+        if idk is not None:
+            for s, recv in self.ev(idk[0], st):
+                v = self.read_field(s, recv.t, idk[1])
+                if v.ty.kind != 'obj':
+                    raise Unsupported(node, 'instance dictionary entry %r must be declared with type obj' % idk[1])
+                miss = s.clone()
+                miss.assume(v.t == ABSENT)
+                self.raise_(miss, 'KeyError')
+                s.assume(v.t != ABSENT)
+                out.append((s, v))
+            return out
         for s, base in self.ev(node.value, st):
             if isinstance(node.slice, ast.Slice):
                 out.extend(self.slice_(node, s, base, node.slice))
@@ -719,6 +742,15 @@ class _Calls:
             if f.id in st.env or f.id in self.proc.opaque_calls:
                 return self.call_opaque(node, st)
             raise Unsupported(node, 'call of %s: no contract' % text)
+        if isinstance(f, ast.Attribute) and f.attr == 'get' and self.proc.locals.get('$instdict') and \
+                isinstance(f.value, ast.Attribute) and f.value.attr == '__dict__' and node.args and \
+                isinstance(node.args[0], ast.Constant) and isinstance(node.args[0].value, str) and not node.keywords:
+            out = []
+            for s, vs in self.ev_list([f.value.value] + list(node.args[1:2]), st):
+                cur = self.read_field(s, vs[0].t, node.args[0].value)
+                dflt = box(vs[1]) if len(vs) > 1 else NONE
+                out.append((s, vobj(z3.If(cur.t == ABSENT, dflt, cur.t))))
+            return out
         if isinstance(f, ast.Attribute):
             out = []
             for s, recv in self.ev(f.value, st):
@@ -1336,6 +1368,10 @@ class _Stmts:
                 h(self, tgt, rs[0][0], rs[0][1], v)
             else:
                 self.write_field(st, rs[0][1].t, tgt.attr, v)
+        elif isinstance(tgt, ast.Subscript) and self.instdict(tgt) is not None:
+            onode, key = self.instdict(tgt)
+            (s1, recv), = self.ev(onode, st)
+            self.write_field(st, recv.t, key, V(OBJ, box(v)))
         elif isinstance(tgt, ast.Subscript):
             (s1, base), = self.ev(tgt.value, st)
             if isinstance(tgt.slice, ast.Slice):
